@@ -277,6 +277,12 @@ func (env *Env) ident(name string) (EV, error) {
 				found = append(found, a)
 			}
 		}
+		if len(found) == 0 {
+			if a := ex.ctx.renamedLocal(env.frame.Fn, name); a != nil {
+				found = []*ssa.Alloc{a}
+				ex.assumed[fmt.Sprintf("local %q of %s was renamed to %q since the contract was written; bound by position", name, funcKey(env.frame.Fn), a.Comment)] = true
+			}
+		}
 		if len(found) > 1 && env.loop != nil {
 			var dom []*ssa.Alloc
 			for _, a := range found {
